@@ -189,6 +189,27 @@ func (n *node) build(op Op) (raw *consensusproto.RawRecord, invKey crypto.PrivKe
 		ch := freshChange()
 		newKey = ch.ReadKey
 		raw, err = rb.BuildAccountRemove(list.AccountRemovePayload{Identities: []crypto.PubKey{s.Acc(op.T).Pub()}, Change: ch})
+	case "remove-revoke":
+		// one batch record: removal (which rotates) together with the revoke of an invite
+		id, _, e := inviteId()
+		if e != nil {
+			return nil, nil, nil, e
+		}
+		ch := freshChange()
+		newKey = ch.ReadKey
+		var res list.BatchResult
+		res, err = rb.BuildBatchRequest(list.BatchRequestPayload{Removals: list.AccountRemovePayload{Identities: []crypto.PubKey{s.Acc(op.T).Pub()}, Change: ch}, InviteRevokes: []string{id}})
+		raw = res.Rec
+	case "remove-invite-open":
+		// one batch record: removal (which rotates) together with a new anyone-can-join invite
+		ch := freshChange()
+		newKey = ch.ReadKey
+		var res list.BatchResult
+		res, err = rb.BuildBatchRequest(list.BatchRequestPayload{Removals: list.AccountRemovePayload{Identities: []crypto.PubKey{s.Acc(op.T).Pub()}, Change: ch}, NewInvites: []list.AclPermissions{list.AclPermissions(Writer)}})
+		if err == nil && len(res.Invites) == 1 {
+			return res.Rec, res.Invites[0], newKey, nil
+		}
+		raw = res.Rec
 	case "leave":
 		raw, err = rb.BuildRequestRemove()
 	case "revoke-rotate":
@@ -306,6 +327,14 @@ func enabled(n *node, m *refModel, abs Abs, thorough bool) (out []Op) {
 		for _, y := range members {
 			if y != by && m.perm[y] != Owner {
 				out = append(out, Op{K: "remove", By: by, T: y})
+				if len(n.invIds) < maxInvites {
+					out = append(out, Op{K: "remove-invite-open", By: by, T: y})
+				}
+				{
+					for _, sl := range live {
+						out = append(out, Op{K: "remove-revoke", By: by, T: y, I: sl.i})
+					}
+				}
 			}
 			if thorough && y != by && (m.perm[y] == Writer || m.perm[y] == Reader) {
 				np := Writer
@@ -859,7 +888,7 @@ func TestCheck(t *testing.T) {
 		Prop:  "C05",
 		Level: "model_checking",
 		Rule: "explicit-state BFS over membership histories of a shareable space; every operation is built by the acting account's own real record builder over its own validating view of the raw log (real keys, real ciphertexts) and submitted to a validating non-member observer: " +
-			"invite (request / open), join request, approve, join by open invite, direct add, remove with rotation, leave request (+ removal), invite revoke with rotation (one batch record), plain revoke, stand-alone rotation, re-add / re-join of removed accounts (thorough: also permission changes); owner and admin both act. " +
+			"invite (request / open), join request, approve, join by open invite, direct add, remove with rotation, leave request (+ removal), invite revoke with rotation (one batch record), plain revoke, stand-alone rotation, re-add / re-join of removed accounts, permission change naming a former member, permission change down to None, removal + invite revoke in one batch record, removal + new open invite in one batch record (thorough: also Reader<->Writer permission changes); owner and admin both act. " +
 			"BFS from 3 seed states (root with the owner only; team O+A+P+Q; rich: + open invite used by X, P removed under a 2nd generation, request invite with P's pending request) to the per-seed depth, plus 2 scripted 13/17-step histories covering every kind; level-synchronous, deterministic dedup. " +
 			"After EVERY accepted record all 5 accounts' private views (validating and client-style non-validating / keep-only-ours decode) are rebuilt from the raw log alone and compared with a reference computed from the hand-decoded raw records only (membership, generations, last loss of permission, attacker closure over every encrypted-read-key blob and the backward EncryptedOldReadKey chain); every AclReadKeyChange of the new record is compared with the exact member / live-open-invite sets after it; " +
 			"in every expanded state hand-signed rotations with real ciphertexts but wrong recipient sets (member swapped for non-member, member omitted, extra non-member, removed account still addressed, live invite replaced / omitted, revoked invite still addressed) are offered and must be rejected; " +
